@@ -53,6 +53,18 @@ def features(body):
             c = cls(t, nxt)
             if c[:2] in ("f:", "T:"):
                 f.add(c)
+    # chains of casts: (A)(B)x with A != B, and (A)(B)(C)x -- conversions compose, a change to one link shows only in the chain
+    chain = []
+    for t in ts:
+        if re.fullmatch(r"u?int\d+_t|size\d+[us]_t", t):
+            if not chain or chain[-1] != t:
+                chain.append(t)
+            if len(chain) >= 2:
+                f.add(("chain", chain[-2], chain[-1]))
+            if len(chain) >= 3:
+                f.add(("chain", chain[-3], chain[-2], chain[-1]))
+        elif t not in "()":
+            chain = []
     return f
 
 
